@@ -183,7 +183,7 @@ func c15NotAfter(c *eng.Ctx) {
 			c.OK(f, "prov{NotAfter returned}", r.Pos(), "returned NotAfter ∈ {the value compared with the issuer's NotAfter, the issuer's NotAfter}")
 		}
 	}
-	c.Prov(f, "NotAfter compared with the issuer's", cmp, cmp.Call.Args[0], `^call:time\.\(Time\)\.Add$`, `^call:time\.Parse#0$`)
+	c15Prov(c, f, "NotAfter compared with the issuer's", cmp, cmp.Call.Args[0], `^call:time\.\(Time\)\.Add$`, `^call:time\.Parse#0$`)
 	// TTL clamp
 	var clamp *ssa.Phi
 	for _, l := range c15phiLeaves(cmp.Call.Args[0]) {
@@ -191,7 +191,7 @@ func c15NotAfter(c *eng.Ctx) {
 		if !ok || eng.CalleeName(&ad.Call) != "time.(Time).Add" {
 			continue
 		}
-		c.Prov(f, "base of now+ttl", ad, ad.Call.Args[0], `^call:time\.Now$`)
+		c15Prov(c, f, "base of now+ttl", ad, ad.Call.Args[0], `^call:time\.Now$`)
 		p, ok := ad.Call.Args[1].(*ssa.Phi)
 		if !ok {
 			c.Violation(f, "ttl clamped to the maximum", ad.Pos(), "the TTL added to now is not min(ttl, maxTTL): "+eng.ExprDeep(ad.Call.Args[1]), nil)
@@ -204,7 +204,7 @@ func c15NotAfter(c *eng.Ctx) {
 		}
 		clamp = p
 		c.OK(f, "ttl clamped to the maximum", ad.Pos(), "now.Add(min(ttl, maxTTL))")
-		c.Prov(f, "maximum TTL", ad, cp, `^field:data\.role\.MaxTTL$`, `^call:<logical\.SystemView>\.MaxLeaseTTL$`, `^const:0$`)
+		c15Prov(c, f, "maximum TTL", ad, cp, `^field:data\.role\.MaxTTL$`, `^call:<logical\.SystemView>\.MaxLeaseTTL$`, `^const:0$`)
 	}
 	if clamp == nil {
 		c.Floor(f, "now.Add(ttl)", 0, 1)
@@ -325,11 +325,11 @@ func c15Serial(c *eng.Ctx) {
 	if f := c.Fn("certutil.generateSerialNumber"); f != nil {
 		c.Clause("R5", "C15.5")
 		for _, r := range eng.SuccessReturns(f, 1) {
-			c.Prov(f, "serial number", r, r.(*ssa.Return).Results[0], `^call:crypto/rand\.Int#0$`)
+			c15Prov(c, f, "serial number", r, r.(*ssa.Return).Results[0], `^call:crypto/rand\.Int#0$`)
 		}
 		ri := eng.Calls(f, `^crypto/rand\.Int$`)
 		if c.Floor(f, "crypto/rand.Int call", len(ri), 1) {
-			c.Prov(f, "entropy source of the serial number", ri[0], ri[0].Common().Args[0], `^param:randReader$`)
+			c15Prov(c, f, "entropy source of the serial number", ri[0], ri[0].Common().Args[0], `^param:randReader$`)
 			// size of the range: 2^N with 64 <= N <= 159 (RFC 5280: at most 20 octets, positive)
 			c.Clause("R12", "C15.5")
 			site := "const{serial number range}"
@@ -356,7 +356,7 @@ func c15Serial(c *eng.Ctx) {
 	if f := c.Fn("certutil.GenerateSerialNumber"); f != nil {
 		c.Clause("R5", "C15.5")
 		for _, g := range eng.Calls(f, `^certutil\.generateSerialNumber$`) {
-			c.Prov(f, "entropy source of GenerateSerialNumber", g, g.Common().Args[0], `^global:crypto/rand\.Reader$`)
+			c15Prov(c, f, "entropy source of GenerateSerialNumber", g, g.Common().Args[0], `^global:crypto/rand\.Reader$`)
 		}
 	}
 	c.Clause("R1", "C15.5")
@@ -381,12 +381,12 @@ func c15Serial(c *eng.Ctx) {
 		for _, st := range eng.Stores(f, `\.SerialNumber$`) {
 			if fa, ok := st.Addr.(*ssa.FieldAddr); ok && structTypeName(fa.X.Type()) == "crypto/x509.Certificate" {
 				n++
-				c.Prov(f, "template SerialNumber", st, st.Val, `^call:certutil\.GenerateSerialNumber#0$`)
+				c15Prov(c, f, "template SerialNumber", st, st.Val, `^call:certutil\.GenerateSerialNumber#0$`)
 			}
 		}
 		c.Floor(f, "template SerialNumber store", n, 1)
 		c.Clause("R2", "C15.5")
-		c.Cut(f, "x509.CreateCertificate", instrsOf(cc), eng.GCallOK(f, `^certutil\.GenerateSerialNumber$`), nil)
+		c.Cut(f, "x509.CreateCertificate", instrsOf(cc), c15GCallOK(f, `^certutil\.GenerateSerialNumber$`), nil)
 	}
 }
 
@@ -408,7 +408,7 @@ func c15Template(c *eng.Ctx) {
 		}
 		c.Clause("R5", "C15.6")
 		for _, v := range eng.StructLitField(tpl, "NotAfter") {
-			c.Prov(f, "template NotAfter", tpl, v, `^field:data\.Params\.NotAfter$`)
+			c15Prov(c, f, "template NotAfter", tpl, v, `^field:data\.Params\.NotAfter$`)
 		}
 		if len(eng.StructLitField(tpl, "NotAfter")) != 1 {
 			c.Violation(f, "template NotAfter", tpl.Pos(), "the template's NotAfter is not set exactly once from the validated parameters", nil)
@@ -509,7 +509,7 @@ func c15KeyChecks(c *eng.Ctx) {
 		return
 	}
 	const csr = `crypto/x509\.ParseCertificateRequest\(\)#0`
-	c.Cut(f, "generateCreationBundle (sign)", gcb, eng.GCallOK(f, `^crypto/x509\.ParseCertificateRequest$`), nil)
+	c.Cut(f, "generateCreationBundle (sign)", gcb, c15GCallOK(f, `^crypto/x509\.ParseCertificateRequest$`), nil)
 	c.Cut(f, "generateCreationBundle (sign)", gcb, eng.G(f, `^`+csr+`\.PublicKey == nil$`, false), nil)
 	algs := map[string]string{"rsa": "RSA", "ec": "ECDSA", "ed25519": "Ed25519"}
 	types := []string{"rsa", "ec", "ed25519", "any"}
@@ -536,12 +536,12 @@ func c15KeyChecks(c *eng.Ctx) {
 	c.Cut(f, "generateCreationBundle (CSR key is RSA)", gcb, eng.G(f, `^φactualKeyBits\{.*\} < 2048$`, false), map[string]bool{`^φactualKeyType\{.*\} == "rsa"$`: true})
 	c.Cut(f, "generateCreationBundle (CSR key is EC)", gcb, eng.G(f, `^φactualKeyBits\{.*\} < data\.role\.KeyBits$`, false), map[string]bool{`^φactualKeyType\{.*\} == "rsa"$`: false, `^φactualKeyType\{.*\} == "ec"$`: true})
 	// key_type=any: the minimum comes from the validated defaults, never 0 by omission
-	c.Cut(f, "generateCreationBundle (role key_type=any)", gcb, eng.GCallOK(f, `^certutil\.ValidateDefaultOrValueKeyTypeSignatureLength$`), map[string]bool{`^data\.role\.KeyType == "any"$`: true})
+	c.Cut(f, "generateCreationBundle (role key_type=any)", gcb, c15GCallOK(f, `^certutil\.ValidateDefaultOrValueKeyTypeSignatureLength$`), map[string]bool{`^data\.role\.KeyType == "any"$`: true})
 
 	if g := c.Fn("pki.(*backend).pathIssue"); g != nil {
 		is := c15SiteAts(c15Sites(g, `^pki\.\(\*backend\)\.pathIssueSignCert$`))
 		if c.Floor(g, "pathIssueSignCert call", len(is), 1) {
-			c.Cut(g, "issuance with a role of key_type=any", is, eng.GCallOK(g, `^certutil\.ValidateDefaultOrValueKeyTypeSignatureLength$`), map[string]bool{`^role\.KeyType == "any"$`: true})
+			c.Cut(g, "issuance with a role of key_type=any", is, c15GCallOK(g, `^certutil\.ValidateDefaultOrValueKeyTypeSignatureLength$`), map[string]bool{`^role\.KeyType == "any"$`: true})
 		}
 	}
 }
@@ -558,10 +558,10 @@ func c15Endpoints(c *eng.Ctx) {
 		op := eng.Calls(f, `^dyn:\^ofunc$`)
 		if c.Floor(f, "handler call", len(op), 1) {
 			asm := map[string]bool{`^0 < \^roleMode$`: true}
-			c.Cut(f, "role handler", instrsOf(op), eng.GCallOK(f, `^pki\.\(\*backend\)\.getRole$`), asm)
+			c.Cut(f, "role handler", instrsOf(op), c15GCallOK(f, `^pki\.\(\*backend\)\.getRole$`), asm)
 			c.Cut(f, "role handler (role required)", instrsOf(op), eng.G(f, `^pki\.\(\*backend\)\.getRole\(\)#0 == nil$`, false), map[string]bool{`^0 < \^roleMode$`: true, `^\^roleMode == ` + reqC + `$`: true})
 			c.Clause("R5", "C15.8")
-			c.Prov(f, "role handed to the handler", op[0], op[0].Common().Args[3], `^call:pki\.\(\*backend\)\.getRole#0$`, `^const:nil$`)
+			c15Prov(c, f, "role handed to the handler", op[0], op[0].Common().Args[3], `^call:pki\.\(\*backend\)\.getRole#0$`, `^const:nil$`)
 		}
 	}
 	// the registered callbacks are wrapped with the role mode that matches the handler
@@ -609,9 +609,9 @@ func c15Endpoints(c *eng.Ctx) {
 			}
 			c.Clause("R5", "C15.8")
 			if fn == "pki.(*backend).pathSignVerbatim" {
-				c.Prov(f, "role used by sign-verbatim", s, st.Arg(4), `^call:pki\.buildSignVerbatimRole$`)
+				c15Prov(c, f, "role used by sign-verbatim", s, st.Arg(4), `^call:pki\.buildSignVerbatimRole$`)
 			} else {
-				c.Prov(f, "role used for issuance", s, st.Arg(4), `^param:role$`)
+				c15Prov(c, f, "role used for issuance", s, st.Arg(4), `^param:role$`)
 			}
 		}
 	}
@@ -625,13 +625,13 @@ func c15Endpoints(c *eng.Ctx) {
 				c.Undecided(f, "input bundle handed to "+st.Name, s.Pos(), "the input bundle is not a locally built literal with role and apiData: "+eng.ExprDeep(in)+" (moved? the rule cannot be evaluated)")
 			}
 			for _, v := range roles {
-				c.Prov(f, "role validated against", s, v, `^param:role$`)
+				c15Prov(c, f, "role validated against", s, v, `^param:role$`)
 			}
 			for _, v := range datas {
-				c.Prov(f, "request data validated", s, v, `^param:data$`)
+				c15Prov(c, f, "request data validated", s, v, `^param:data$`)
 			}
 			if st.Name == "pki.signCert" {
-				c.Prov(f, "useCSRValues handed to signCert", s, st.Arg(4), `^param:useCSRValues$`)
+				c15Prov(c, f, "useCSRValues handed to signCert", s, st.Arg(4), `^param:useCSRValues$`)
 			}
 		}
 	}
@@ -647,13 +647,13 @@ func c15Endpoints(c *eng.Ctx) {
 			}
 			c.Clause("R5", "C15.8")
 			for _, v := range eng.StructLitField(st.Arg(1), "role") {
-				c.Prov(f, "role validated against (ACME)", s, v, `^field:ac\.role$`)
+				c15Prov(c, f, "role validated against (ACME)", s, v, `^field:ac\.role$`)
 			}
 		}
 		c.Clause("R2", "C15.8")
 		sc := c15SiteAts(acme)
 		if len(sc) > 0 {
-			c.Cut(f, "signCert (ACME)", sc, eng.GCallOK(f, `^pki\.getCertificateNotAfter$`), nil)
+			c.Cut(f, "signCert (ACME)", sc, c15GCallOK(f, `^pki\.getCertificateNotAfter$`), nil)
 		}
 	}
 	// who may override the issuer's leaf_not_after_behavior, and with what
@@ -695,14 +695,14 @@ func c15Endpoints(c *eng.Ctx) {
 		cel := c15Sites(f, `^pki\.(generateCELCert|signCELCert)$`)
 		sg := c15SiteAts(cel)
 		if c.Floor(f, "CEL signing calls", len(cel), 2) {
-			c.Cut(f, "CEL signing", sg, eng.GCallOK(f, `\.Evaluate$`), nil)
-			c.Cut(f, "CEL signing", sg, eng.GCallOK(f, `^pki\.CertProtoToX509$`), nil)
-			c.Cut(f, "CEL signing", sg, eng.GCallOK(f, `^pki\.\(\*backend\)\.fetchCaSigningBundle$`), nil)
+			c.Cut(f, "CEL signing", sg, c15GCallOK(f, `\.Evaluate$`), nil)
+			c.Cut(f, "CEL signing", sg, c15GCallOK(f, `^pki\.CertProtoToX509$`), nil)
+			c.Cut(f, "CEL signing", sg, c15GCallOK(f, `^pki\.\(\*backend\)\.fetchCaSigningBundle$`), nil)
 			c.Cut(f, "CEL signing", sg, eng.G(f, `\.\(\*google\.golang\.org/protobuf/types/dynamicpb\.Message\)#1$`, true), nil)
 			c.Clause("R5", "C15.8")
 			for _, st := range cel {
-				c.Prov(f, "CEL template", st.Call, st.Arg(2), `^call:pki\.CertProtoToX509#0$`)
-				c.Prov(f, "CEL signing bundle", st.Call, st.Arg(1), `^call:pki\.\(\*backend\)\.fetchCaSigningBundle#0$`)
+				c15Prov(c, f, "CEL template", st.Call, st.Arg(2), `^call:pki\.CertProtoToX509#0$`)
+				c15Prov(c, f, "CEL signing bundle", st.Call, st.Arg(1), `^call:pki\.\(\*backend\)\.fetchCaSigningBundle#0$`)
 			}
 		}
 	}
